@@ -167,11 +167,29 @@ func (sd *SignedData) Encode(enc Encoding, wrapTag byte) ([]byte, RangeMap) {
 // LDSVersionInfo{"0108","040000"}. hashes maps data group number to hash value; entries are written in
 // ascending number order.
 func LDSSecurityObject(version int, h Hash, hashes map[int][]byte) []byte {
+	return LDSSecurityObjectOrdered(version, h, hashes, nil)
+}
+
+// LDSSecurityObjectOrdered is LDSSecurityObject with the hash entries written in the given order of data group
+// numbers (dataGroupHashValues is a SEQUENCE OF; Doc 9303-10 does not prescribe an order). Numbers in hashes but
+// not in order follow in ascending order; order == nil is ascending.
+func LDSSecurityObjectOrdered(version int, h Hash, hashes map[int][]byte, order []int) []byte {
 	var nums []int
-	for n := range hashes {
-		nums = append(nums, n)
+	seen := map[int]bool{}
+	for _, n := range order {
+		if _, ok := hashes[n]; ok && !seen[n] {
+			seen[n] = true
+			nums = append(nums, n)
+		}
 	}
-	sort.Ints(nums)
+	var rest []int
+	for n := range hashes {
+		if !seen[n] {
+			rest = append(rest, n)
+		}
+	}
+	sort.Ints(rest)
+	nums = append(nums, rest...)
 	var dgs []*Node
 	for _, n := range nums {
 		dgs = append(dgs, Seq(Int64(int64(n)), Octets(hashes[n])))
